@@ -6,6 +6,7 @@ import (
 	"regexp"
 	"sort"
 	"strings"
+	"sync/atomic"
 
 	bexpr "github.com/hashicorp/go-bexpr"
 	"github.com/hashicorp/go-bexpr/grammar"
@@ -38,6 +39,8 @@ func evalObs(ev *bexpr.Evaluator, d interface{}) (o string) {
 	return obsOutcome(b, err)
 }
 
+var obsCalls int64
+
 // exprObs creates an evaluator and evaluates it once: NOCREATE if the text does not parse.
 func exprObs(expr string, d interface{}, opts ...bexpr.Option) (o string) {
 	defer func() {
@@ -45,6 +48,11 @@ func exprObs(expr string, d interface{}, opts ...bexpr.Option) (o string) {
 			o = "P"
 		}
 	}()
+	// every so often, unrelated evaluations that FAIL inside quantifier bodies run first: whatever an error path leaves behind
+	// in state shared between evaluators (pools, caches) then shows in this stream's comparison, whichever property it belongs to
+	if atomic.AddInt64(&obsCalls, 1)%97 == 0 {
+		poison()
+	}
 	ev, err := bexpr.CreateEvaluator(expr, opts...)
 	if err != nil {
 		return "NOCREATE"
